@@ -252,6 +252,10 @@ def run_tree(fam, kind, impl, rng, rec, ti):
     uni = fam.key_universe(rng, n=rng.choice([16, 26, 36]))
     if fam.kc == 'O':
         uni = [k for k in uni if k is not None]
+        if ti % 2:
+            # None is a legal object key and the smallest one
+            uni.append(None)
+            rec.ev(impl + ':none-key-universe')
     ls = corpus.grow_container(fam, kind, impl, rng, sizes=sizes,
                                universe=uni, values=vals,
                                steps=rng.randint(10, 90))
